@@ -1,12 +1,13 @@
 (* C15 — FRI completeness and the folding identity.
    Only statements, `exact` of lemmas proved in Proofs/Fri*.v, Print Assumptions, non-vacuity examples.
    Model: Model/Fri.v (hand-written from fri/src, tied to the source by the correspondence run of checks/c15.py). *)
-From Coq Require Import List Arith Bool Lia.
+From Coq Require Import List Arith Bool Lia ZArith.
 From VBase Require Import FieldOps.
 From VModel Require Import Fri.
 From VBase Require Import ZpOps.
-From VProofs Require Import FriIdx FriField FriInterp FriProver ZpLaws.
+From VProofs Require Import FriIdx FriField FriInterp FriProver FriRoots FriCoset FriComplete ZpLaws.
 Import ListNotations.
+Local Open Scope nat_scope.
 
 (* ---------------------------------------------------------------- position folding *)
 (* for the inputs on which the Rust code does not panic (see C15_fold_positions_panics), the result is the
@@ -140,10 +141,10 @@ Theorem C15_degree_propagates : forall fs alpha k, (forall fj, In fj fs -> lengt
   length (fold_slices O alpha fs) <= k.
 Proof. exact (fold_slices_length O). Qed.
 
-(* fri_complete, per-layer consistency (the composition over all layers is NOT proved: fri_complete_partial):
+(* per-layer consistency of prover and verifier (composed over all layers in C15_fri_complete below):
    for EVERY row the value the verifier computes (Lagrange interpolant of the opened row at alpha) is the value
    the prover's apply_drp put into the next layer *)
-Theorem C15_fri_complete_partial : forall x row alpha, x <> fzero O -> length row = N ->
+Theorem C15_layer_consistency : forall x row alpha, x <> fzero O -> length row = N ->
   interp_eval O (row_nodes O N w x) row alpha = drp_row O N winv (finv O (fnat O N)) (finv O x) alpha row.
 Proof. exact (verifier_row_eq_prover_row O L N w winv w_pow w_prim w_inv N_nonzero). Qed.
 End AnyN.
@@ -157,7 +158,7 @@ Print Assumptions C15_lagrange_exact.
 Print Assumptions C15_row_poly_interpolates.
 Print Assumptions C15_drp_identity.
 Print Assumptions C15_degree_propagates.
-Print Assumptions C15_fri_complete_partial.
+Print Assumptions C15_layer_consistency.
 
 (* non-vacuity: the hypotheses of Section AnyN are satisfiable (f64, N = 2, w = winv = -1) *)
 Example C15_roots_hypotheses_satisfiable : exists w winv : Zp P64,
@@ -183,3 +184,135 @@ Theorem C15_prover_reusable : forall (F MT MN : Type) (mt_prove_batch : MT -> li
   fp_remainder proof = pr_remainder MT p /\ fp_partitions proof = 1.
 Proof. exact (@prover_reusable). Qed.
 Print Assumptions C15_prover_reusable.
+
+(* ================================================================ round 2: whole cosets, remainder, end to end *)
+Section WholeCoset.
+Context {F : Type} (O : FOps F) (L : FLaws O).
+(* the family B::get_root_of_unity(k), k <= K = TWO_ADICITY, characterised by three facts *)
+Variable rou : nat -> F.
+Variable K : nat.
+Hypothesis K_pos : 1 <= K.
+Hypothesis rou_sq : forall k, k < K -> fmul O (rou (S k)) (rou (S k)) = rou k.
+Hypothesis rou_1 : rou 1 = fneg O (fone O).
+Hypothesis two_nz : fadd O (fone O) (fone O) <> fzero O.
+
+(* consequences: exact order 2^k *)
+Theorem C15_rou_primitive : forall k, k <= K ->
+  fpow O (rou k) (2 ^ k) = fone O /\ forall d, 0 < d < 2 ^ k -> fpow O (rou k) d <> fone O.
+Proof. intros k Hk. split; [now apply (rou_order O L rou K K_pos rou_sq rou_1) | now apply (rou_prim O L rou K K_pos rou_sq rou_1 two_nz)]. Qed.
+
+(* (1) apply_drp over the whole coset, in the order the code produces: for f = concat cs (coefficient chunks of
+   length N = 2^f, i.e. f(y) = sum_m y^(mN) c_m(y); the j-th slice f_j collects the j-th entries), evaluated over
+   offset*<g>, g = rou(rho+f), |<g>| = 2^rho * N: transposition gives the rows, and apply_drp returns, for
+   i = 0 .. 2^rho - 1, the value of the folded polynomial  sum_m X^m c_m(alpha) = sum_j alpha^j f_j(X)  at the folded
+   point X_i = (offset g^i)^N.  Every folding factor 2^f with rho + f <= K (so 2, 4, 8, 16). *)
+Theorem C15_apply_drp_coset : forall rho f, 1 <= f -> rho + f <= K ->
+  forall cs offset alpha, offset <> fzero O -> Forall (fun c => length c = 2 ^ f) cs ->
+  let P := concat cs in
+  let evals := coset_evals O P offset (rou (rho + f)) (2 ^ rho * 2 ^ f) in
+  transpose_slice (fzero O) (2 ^ f) evals = Ok (map (row_of (fzero O) (2 ^ f) (2 ^ rho) evals) (seq 0 (2 ^ rho))) /\
+  apply_drp O rou K (2 ^ f) (map (row_of (fzero O) (2 ^ f) (2 ^ rho) evals) (seq 0 (2 ^ rho))) offset alpha
+  = Ok (map (fun i => peval O (map (fun c => peval O c alpha) cs) (fpow O (fmul O offset (fpow O (rou (rho + f)) i)) (2 ^ f)))
+            (seq 0 (2 ^ rho))).
+Proof. intros rho f Hf Hrf. exact (apply_drp_coset O L rou K K_pos rou_sq rou_1 two_nz rho f Hf Hrf). Qed.
+
+(* layer_relabelling: the code calls the points of the next layer offset * g_next^i; in that labelling the output is the
+   evaluation over offset*<rou rho> of [fold_next] = (folded polynomial)(offset^(N-1) * y), same number of coefficients / N *)
+Theorem C15_apply_drp_coset_relabelled : forall rho f, 1 <= f -> rho + f <= K ->
+  forall P m offset alpha, offset <> fzero O -> length P = m * 2 ^ f ->
+  let evals := coset_evals O P offset (rou (rho + f)) (2 ^ rho * 2 ^ f) in
+  apply_drp O rou K (2 ^ f) (map (row_of (fzero O) (2 ^ f) (2 ^ rho) evals) (seq 0 (2 ^ rho))) offset alpha
+  = Ok (coset_evals O (fold_next O f alpha offset P) offset (rou rho) (2 ^ rho)) /\
+  length (fold_next O f alpha offset P) = m.
+Proof.
+  intros rho f Hf Hrf P m offset alpha Ho HP. split.
+  - exact (apply_drp_coset_relabelled O L rou K K_pos rou_sq rou_1 two_nz rho f Hf Hrf P m offset alpha Ho HP).
+  - exact (fold_next_length O K K_pos rho f Hf Hrf alpha offset P m HP).
+Qed.
+
+(* (2) the remainder step: interpolate_poly_with_offset (set_remainder) applied to the evaluations of a polynomial
+   over offset*<rou mu> returns its coefficients, zero-padded to the domain size; the model's radix-2 FFT is the DFT *)
+Theorem C15_interpolate_coset : forall mu P offset, 1 <= mu <= K -> offset <> fzero O -> length P <= 2 ^ mu ->
+  interpolate_poly_with_offset O rou K (coset_evals O P offset (rou mu) (2 ^ mu)) offset
+  = Ok (P ++ repeat (fzero O) (2 ^ mu - length P)).
+Proof. exact (interpolate_coset O L rou K K_pos rou_sq rou_1 two_nz). Qed.
+
+Theorem C15_fft_rec_idft : forall k w l, length l = 2 ^ k ->
+  (k = 0 \/ fpow O w (2 ^ (k - 1)) = fneg O (fone O)) -> fft_rec O k w l = idft O (2 ^ k) w l.
+Proof. exact (fft_rec_idft O L). Qed.
+
+(* (3) fri_complete, end to end for the MODEL prover and verifier.  Externals are the abstract Section variables of
+   Model/Fri.v; the hypotheses about them are exactly:
+     merkle_new_ok, merkle_batch_complete : C10_new_ok / C10_batch_complete for the abstract tree functions
+                                            (depth 1..62, non-empty duplicate-free in-range index list of <= 255 entries)
+     draw_total                            : the coin's draw yields an element (DefaultRandomCoin gives up after 1000
+                                             rejected candidates; the verifier draws once more than the prover, after
+                                             the remainder commitment)
+   Statement: domain 2^a, folding 2^f supported, blowup 2^b, the schedule has k layers and is well formed
+   (k f < a, b <= a - k f), a <= K, a <= 62, P has 2^(a-b) coefficients (degree <= bound, zero-padded), positions
+   non-empty, in range, at most 255 (duplicates and collisions after folding allowed): the prover succeeds and the
+   verifier (channel construction, FriVerifier::new, verify) returns Ok on its proof. *)
+Section EndToEnd.
+Variable gen_offset : F.
+Hypothesis offset_nz : gen_offset <> fzero O.
+Variable dbg : bool.
+Variable D : Type.
+Variable D_eqb : D -> D -> bool.
+Hypothesis D_eqb_spec : forall a b, D_eqb a b = true <-> a = b.
+Variable hash_elements : list F -> D.
+Variable MT MN : Type.
+Variable mt_new : list D -> option MT.
+Variable mt_root : MT -> D.
+Variable mt_prove_batch : MT -> list nat -> option MN.
+Variable mt_verify_batch : D -> list nat -> list D -> MN -> nat -> auth_res.
+Variable CS : Type.
+Variable cs_reseed : CS -> D -> CS.
+Variable cs_draw : CS -> CS * draw_res F.
+Hypothesis merkle_new_ok : forall leaves d, 1 <= d -> length leaves = 2 ^ d -> exists t, mt_new leaves = Some t.
+Hypothesis merkle_batch_complete : forall leaves t d indexes dflt,
+  mt_new leaves = Some t -> length leaves = 2 ^ d -> 1 <= d <= 62 ->
+  indexes <> [] -> length indexes <= 255 -> NoDup indexes -> (forall i, In i indexes -> i < length leaves) ->
+  exists nodes, mt_prove_batch t indexes = Some nodes /\
+    mt_verify_batch (mt_root t) indexes (map (fun i => nth i leaves dflt) indexes) nodes d = AuthOk.
+Hypothesis draw_total : forall c, exists c' a, cs_draw c = (c', DrawOk a).
+
+Theorem C15_fri_complete : forall f b remmax, 1 <= f -> supported_folding (2 ^ f) = true ->
+  forall a k P positions coin0,
+  num_fri_layers (mkOpts (2 ^ b) (2 ^ f) remmax) (2 ^ a) = Some k -> k * f < a -> b <= a - k * f -> a <= K -> a <= 62 ->
+  length P = 2 ^ (a - b) ->
+  positions <> [] /\ length positions <= 255 /\ (forall p, In p positions -> p < 2 ^ a) ->
+  let evals := coset_evals O P gen_offset (rou a) (2 ^ a) in
+  exists cs proof p',
+    prove O rou K gen_offset D hash_elements MT MN mt_new mt_root mt_prove_batch CS cs_reseed cs_draw
+          (mkOpts (2 ^ b) (2 ^ f) remmax) coin0 evals positions = Ok (cs, proof, p') /\
+    run_verifier O rou K gen_offset dbg D D_eqb hash_elements MN mt_verify_batch CS cs_reseed cs_draw true
+          (mkOpts (2 ^ b) (2 ^ f) remmax) coin0 proof cs (2 ^ (a - b) - 1) (2 ^ a)
+          (map (fun p => nth p evals (fzero O)) positions) positions
+    = RunVerdict (Ok tt).
+Proof.
+  intros f b remmax Hf Hs.
+  exact (fri_complete O L rou K K_pos rou_sq rou_1 two_nz gen_offset offset_nz dbg D D_eqb D_eqb_spec hash_elements MT MN
+           mt_new mt_root mt_prove_batch mt_verify_batch CS cs_reseed cs_draw merkle_new_ok merkle_batch_complete draw_total
+           f b remmax Hf Hs).
+Qed.
+End EndToEnd.
+End WholeCoset.
+
+Print Assumptions C15_rou_primitive.
+Print Assumptions C15_apply_drp_coset.
+Print Assumptions C15_apply_drp_coset_relabelled.
+Print Assumptions C15_interpolate_coset.
+Print Assumptions C15_fft_rec_idft.
+Print Assumptions C15_fri_complete.
+
+(* non-vacuity of the root-family hypotheses: f64, K = 2, roots 1, -1, 2^48 (2^96 = -1 in the Goldilocks field) *)
+Example C15_root_family_satisfiable : exists rou : nat -> Zp P64,
+  (forall k, k < 2 -> fmul F64_ops (rou (S k)) (rou (S k)) = rou k) /\ rou 1 = fneg F64_ops (fone F64_ops) /\
+  fadd F64_ops (fone F64_ops) (fone F64_ops) <> fzero F64_ops.
+Proof.
+  exists (fun k => match k with 0 => fone F64_ops | 1 => fneg F64_ops (fone F64_ops) | _ => fofz F64_ops (2 ^ 48)%Z end).
+  split; [|split].
+  - intros k Hk. destruct k as [|[|k]]; [| |lia]; apply zp_val_inj; vm_compute; reflexivity.
+  - reflexivity.
+  - intros H. apply (f_equal zp_val) in H. vm_compute in H. discriminate.
+Qed.
